@@ -13,7 +13,7 @@
 From Coq Require Import Reals ZArith NArith String List Bool.
 From Verif.Sem Require Import Field Val RInst RLemmas.
 From Verif.C20 Require Import Dec Model Spec Proofs SemExt.
-From Run Require Import GenTables GenAtoms GenMaterial Tie.
+From Run Require Import GenTables GenAtoms GenMaterial Tie TieAtt.
 Import ListNotations.
 Open Scope string_scope.
 
